@@ -46,6 +46,10 @@ type GenOpts struct {
 	Rich      bool   // bias towards several imports / interfaces (C13)
 	SetupName string // force the setup file's name (e.g. "my.setup.go")
 	Nested    bool   // force a nested package directory
+	// ForceHooks: a hook from a blank-imported package is certainly used (so that
+	// goimports has to add an import on its own) and a second package of the same
+	// name exporting the same functions exists elsewhere in the module
+	ForceHooks bool
 }
 
 var RejectFamilies = []string{
@@ -73,7 +77,21 @@ type genIntf struct {
 func GenWorld(r *Rng, opts GenOpts, variantCount int) *WorldSpec {
 	w := &WorldSpec{Files: map[string]string{}}
 	feat := map[string]bool{}
-	w.Files["mod/go.mod"] = "module example.com/w\n\ngo 1.19\n"
+	// the user's go.mod is valid but not always what `go mod tidy` would write
+	switch r.Intn(6) {
+	case 0:
+		w.Files["mod/go.mod"] = "module example.com/w\n" // no go directive
+		feat["gomod-no-go-directive"] = true
+	case 1:
+		w.Files["mod/go.mod"] = "module example.com/w\n\ngo 1.19\n\nreplace example.com/unused => ../outside/unused\n"
+		w.Files["outside/unused/go.mod"] = "module example.com/unused\n\ngo 1.19\n"
+		feat["gomod-replace-without-require"] = true
+	case 2:
+		w.Files["mod/go.mod"] = "// the module of the mapping layer\nmodule example.com/w\n\ngo 1.19\n\nrequire ()\n"
+		feat["gomod-empty-require-block"] = true
+	default:
+		w.Files["mod/go.mod"] = "module example.com/w\n\ngo 1.19\n"
+	}
 
 	// --- data packages
 	nStructs := r.Range(1, 3)
@@ -144,9 +162,13 @@ func GenWorld(r *Rng, opts GenOpts, variantCount int) *WorldSpec {
 		w.Files["mod/a/types/types.go"] = "package types\n\ntype Base struct {\n\tID  int64\n\tRev int\n}\n"
 		w.Files["mod/b/types/types.go"] = "package types\n\ntype Base struct {\n\tID  int64\n\tRev int\n}\n"
 	}
-	hooksPkg := r.Chance(1, 3)
+	hooksPkg := r.Chance(1, 3) || opts.ForceHooks
 	if hooksPkg {
 		feat["imported-hook"] = true
+	}
+	legacyHooks := hooksPkg && (r.Chance(1, 2) || opts.ForceHooks)
+	if legacyHooks {
+		feat["same-named-hooks-package-elsewhere"] = true
 	}
 	// a blank import whose last path element equals the name of a regular
 	// import, with a notation that refers to that name (import-table pressure)
@@ -454,6 +476,12 @@ func GenWorld(r *Rng, opts GenOpts, variantCount int) *WorldSpec {
 		}
 		// import order as the user wrote it: seeded, not sorted
 		Shuffle(vr, imports)
+		if opts.ForceHooks {
+			d := defs[0]
+			gi := genIntf{name: "HookedConv", marked: true}
+			gi.methods = append(gi.methods, genMethod{name: "HookedToModel", notations: []string{":postprocess hooks.Post" + d.name + "true"}, sig: "HookedToModel(*" + domAlias + "." + d.name + ") *" + modAlias + "." + d.name})
+			intfs = append(intfs, gi)
+		}
 		if blankSameBase {
 			blank := "\t_ \"example.com/w/audit/model\""
 			if blankFirst {
@@ -527,6 +555,9 @@ func GenWorld(r *Rng, opts GenOpts, variantCount int) *WorldSpec {
 			fmt.Fprintf(&hb, "func Post%sfalse(lhs *domain.%s, rhs *model.%s) {}\n\n", d.name, d.name, d.name)
 		}
 		w.Files[dir+"/hooks/hooks.go"] = hb.String()
+		if legacyHooks {
+			w.Files["mod/legacy/hooks/hooks.go"] = hb.String()
+		}
 	}
 	if r.Chance(1, 3) {
 		feat["sibling-file"] = true
